@@ -114,7 +114,7 @@ def describe_impl(root, file, l1, c1, l2, c2):
         for k in range(line - 1, min(line + 10, len(lines))):
             m = re.match(r'\s*(?:pub\s+)?(?:async\s+)?fn\s+([A-Za-z_][A-Za-z0-9_]*)', lines[k])
             if m:
-                return (m.group(1), 'attr:' + re.sub(r'\(.*', '', text))
+                return (m.group(1), 'attr:' + re.sub(r'\(.*', '', text).strip('#[] '))
         return ('?%s:%d' % (os.path.basename(file), line), 'derive:' + text)
     return (ty, 'derive:' + text)
 
@@ -129,7 +129,7 @@ def canonical(raw_name, root):
                                            if file.endswith('lib.rs') else os.path.basename(file),
                                            l1)
         st, tr = describe_impl(root, file, l1, c1, l2, c2)
-        if tr is None:
+        if tr is None or tr.startswith('attr:'):
             return st
         return '<%s as %s>' % (st, tr)
     return IMPL_AT_RE.sub(repl, raw_name)
